@@ -32,6 +32,17 @@ def _run_one(item):
         out["compiled"] = [str(c)[:80] for c in cmds]
         used = item["used"]
         k = len(used)
+        # the same circuit followed by the deletion of one of its modes has no single-matrix form: refused, or the deletion is kept
+        if used:
+            try:
+                prog2 = sfx.build_program(regsize, list(item["circ"]) + [{"name": "Del", "p": [], "modes": [used[0]], "dag": False}])
+                comp2 = prog2.compile(compiler="gaussian_unitary" if target == "gu" else "passive")
+                if not any(type(c.op).__name__ == "_Delete" and [r.ind for r in c.reg] == [used[0]] for c in comp2.circuit):
+                    out["meta_dropped"] = [str(c)[:60] for c in comp2.circuit]
+            except CircuitError:
+                pass
+            except Exception as e:  # noqa
+                out["meta_error"] = "%s: %s" % (type(e).__name__, str(e)[:100])
         if target == "gu":
             S = np.eye(2 * k)
             d = np.zeros(2 * k)
@@ -221,6 +232,10 @@ def c11(chk):
             det["compiled"] = o.get("compiled")
             if "stray" in o:
                 chk.violation("CompiledShape", f, dict(det, info=o["stray"]))
+            if "meta_dropped" in o:
+                chk.violation("DeletionDropped", f, dict(det, compiled_with_deletion=o["meta_dropped"]))
+            if "meta_error" in o:
+                chk.violation("UnexpectedError", dict(f, error=o["meta_error"].split(":")[0]), dict(det, msg=o["meta_error"]))
             if o.get("regs") is not None and o["regs"] != used:
                 chk.violation("OutputModes", f, dict(det, got=o["regs"], want=used))
             if target == "gu":
